@@ -6,14 +6,14 @@
    relates the two parser models textX builds for one grammar (autokwd off / on), as dumped by
    tools/pegdump.py, for EVERY pair of tables, text, oracles, fuel and memoization setting. *)
 From TxV Require Import Core.Base Model.PegSyntax Model.Peg Model.KwDefs Gen.SrcKw Model.Kw
-     Proofs.PegCongr Proofs.KwProofs Proofs.KwCheckProofs Proofs.KwWitness.
+     Proofs.PegCongr Proofs.KwProofs Proofs.KwCheckProofs Proofs.KwWitness Proofs.KwStatements.
 
 (* (0) The facts of the current source are the ones the model transcribes. *)
 Theorem C21_source_is_modelled :
   src_kw_pattern = modelled_kw_pattern /\ src_kw_prefix = [] /\ src_kw_suffix = modelled_kw_suffix /\
   src_kw_guard_is_autokwd = true /\ src_kw_full_span = true /\
   src_kw_icase = IcMM /\ src_str_icase = IcMM /\ src_re_icase = IcMM.
-Proof. repeat split; reflexivity. Qed.
+Proof. exact stmt_C21_source_is_modelled. Qed.
 Print Assumptions C21_source_is_modelled.
 
 (* (1) Detection: with autokwd a literal becomes the regex <literal>\b exactly when it fully matches
@@ -24,10 +24,7 @@ Theorem C21_kw_detect : forall wordc digitc icase t,
     (if kw_like wordc digitc t then TRegex (t ++ [92;98]%N) icase t else TStr t icase) /\
   (kw_like wordc digitc t = true <->
    exists c r, t = c :: r /\ digitc c = false /\ wordc c = true /\ forallb wordc r = true).
-Proof.
-  intros. split; [|apply kw_like_spec].
-  rewrite compile_lit_kw by reflexivity. reflexivity.
-Qed.
+Proof. exact stmt_C21_kw_detect. Qed.
 Print Assumptions C21_kw_detect.
 
 (* (2) A keyword-like literal never matches when the next character is a word character; in fact it
@@ -39,10 +36,7 @@ Theorem C21_boundary : forall wordc digitc lower icase t input p,
   kw_match wordc lower icase t input p =
     (if (lit_prefix lower icase t (skipn p input) && negb (word_at wordc input (p + length t)))%bool
      then Some (length t) else None).
-Proof.
-  intros wordc digitc lower icase t input p Hw Hk.
-  split; [apply (kw_boundary wordc digitc); assumption | apply (kw_match_char wordc digitc); assumption].
-Qed.
+Proof. exact stmt_C21_boundary. Qed.
 Print Assumptions C21_boundary.
 
 (* (3) Literals that do not look like identifiers compile to the same terminal with and without
@@ -50,7 +44,7 @@ Print Assumptions C21_boundary.
 Theorem C21_other_literals_identical : forall wordc digitc icase t,
   kw_like wordc digitc t = false ->
   compile_lit wordc digitc true icase t = compile_lit wordc digitc false icase t.
-Proof. intros. apply compile_lit_other; [reflexivity | reflexivity | assumption]. Qed.
+Proof. exact stmt_C21_other_literals_identical. Qed.
 Print Assumptions C21_other_literals_identical.
 
 (* ... and two tables whose non-terminal nodes are identical and whose terminals answer alike
@@ -100,7 +94,7 @@ Example C21_kw_nonvacuous :
   kw_match ascii_word ascii_lower false [105;102]%N [105;102;120]%N 0 = None /\        (* "ifx"  *)
   kw_match ascii_word ascii_lower false [105;102]%N [105;102]%N 0 = Some 2 /\          (* "if"   *)
   kw_match ascii_word ascii_lower false [105;102]%N [105;102;40]%N 0 = Some 2.         (* "if("  *)
-Proof. vm_compute. repeat split. Qed.
+Proof. exact stmt_C21_kw_nonvacuous. Qed.
 Print Assumptions C21_kw_nonvacuous.
 
 (* `Model: ('in' x=ID | y=ID) ';';` : on "in x;" the hypotheses of (4) hold and the parse is accepted;
